@@ -5,22 +5,37 @@ From ASModel Require Import Base SrcLoc.
 From ASProofs Require Import SrcLocP.
 Local Open Scope N_scope.
 
-(* linecol t i is what the compiler records for the character with index i of the
-   file: 1-based line, 0-based column counted in characters.  For every Unicode
-   text (tabs, CR LF, multi-byte characters anywhere) and every position. *)
+(* linecol u i is what the compiler records for the character with index i of the
+   text u it sees: 1-based line, 0-based column counted in characters.  What it sees
+   of a file t is strip_bom t (a leading byte-order mark is dropped before positions
+   are assigned); what is read back at run time is t itself.  For every Unicode text
+   (tabs, CR LF, multi-byte characters anywhere, with or without a byte-order mark)
+   and every position: the offset is the one of that character in the file. *)
 Theorem c04_roundtrip : forall t i,
-  let '(l, c) := linecol t i in byte_offset_of t l c = prefix_len t i.
+  let '(l, c) := linecol (strip_bom t) i in byte_offset_of t l c = bom_len t + prefix_len (strip_bom t) i.
 Proof. exact roundtrip. Qed.
 Print Assumptions c04_roundtrip.
 
+(* the same for a file without a byte-order mark (every file of the repository's own suite) *)
+Theorem c04_roundtrip_plain : forall t i, starts_bom t = false ->
+  let '(l, c) := linecol t i in byte_offset_of t l c = prefix_len t i.
+Proof. exact roundtrip_plain. Qed.
+Print Assumptions c04_roundtrip_plain.
+
 (* a token range [i, j) is marked by exactly its own bytes: non-empty, begins on
    its first character, ends after its last *)
-Theorem c04_marked_range : forall t i j, (i < j)%nat -> (j <= List.length t)%nat ->
-  let '(ls, cs) := linecol t i in
-  let '(le, ce) := linecol t j in
-  span_of t ls cs le ce = (prefix_len t i, prefix_len t j).
+Theorem c04_marked_range : forall t i j, (i < j)%nat -> (j <= List.length (strip_bom t))%nat ->
+  let '(ls, cs) := linecol (strip_bom t) i in
+  let '(le, ce) := linecol (strip_bom t) j in
+  span_of t ls cs le ce = (bom_len t + prefix_len (strip_bom t) i, bom_len t + prefix_len (strip_bom t) j).
 Proof. exact marked_range_exact. Qed.
 Print Assumptions c04_marked_range.
+
+(* record of the second repair ("fix: a leading byte-order mark is not counted in the columns of the first
+   line"): the computation without that step marks the wrong character on the first line of such a file *)
+Lemma c04_roundtrip_without_bom_step_refuted :
+  exists t i, let '(l, c) := linecol (strip_bom t) i in byte_offset_core t l c <> bom_len t + prefix_len (strip_bom t) i.
+Proof. exact byte_offset_core_refuted. Qed.
 
 Lemma c04_roundtrip_old_refuted :
   exists t i, let '(l, c) := linecol t i in byte_offset_of_old t l c <> prefix_len t i.
@@ -29,6 +44,13 @@ Proof. exact byte_offset_of_old_refuted. Qed.
 Example c04_example : linecol [233; 9; 13; 10; 26085; 120] 5 = (2, 1)
                       /\ byte_offset_of [233; 9; 13; 10; 26085; 120] 2 1 = 8.
 Proof. split; reflexivity. Qed.
+
+(* `<BOM>é=` then a second line: the `=` is line 1 column 1 for the compiler and byte 5 of the file; the `y` on
+   line 2 is not moved twice *)
+Example c04_example_bom : linecol (strip_bom [65279; 233; 61; 10; 121]) 1 = (1, 1)
+                          /\ byte_offset_of [65279; 233; 61; 10; 121] 1 1 = 5
+                          /\ byte_offset_of [65279; 233; 61; 10; 121] 2 0 = 7.
+Proof. repeat split; reflexivity. Qed.
 
 (* ---- expansion-time half: which tokens anchor a node (Nodes.location mirrors
    Pattern::location; it is compared with the real one through the token-exact expander
